@@ -253,7 +253,10 @@ pub fn build<Data: GarnishData>(parse_root: usize, parse_tree: Vec<ParseNode>, d
             match last_instruction.clone().and_then(|i| data.get_instruction(i)) {
                 // already terminated by its own last instruction; an instruction of an earlier root does not count,
                 // a root that emitted nothing (an empty group) still needs its terminator
-                Some(instruction) if instruction == end_instruction && data.get_instruction_len() > root_start => {}
+                // only an explicit end of expression can stand in for the root's own; any other terminator (the `Tis` of a
+                // logical operand) must run for every path that reaches the end of the root, not only when it is textually last
+                Some(instruction)
+                    if instruction == end_instruction && end_instruction.0 == Instruction::EndExpression && data.get_instruction_len() > root_start => {}
                 _ => {
                     data.push_instruction(end_instruction.0, end_instruction.1)?;
                     instruction_metadata.push(InstructionMetadata::new(None));
